@@ -84,3 +84,27 @@ Proof.
   intros re Ha e st Hp Hc. apply (pattern_vm_follows_reference re e st Hp); auto.
   eapply parse_wfe_ascii; eauto.
 Qed.
+
+(* ... and for EVERY pattern that is valid UTF-8 (what a Rust &str is): the parser only ever
+   indexes the pattern at character boundaries (Proofs/ParseIdx.v), so every literal node is one
+   well-formed character.  Nothing is assumed about the tree. *)
+From FR Require Import ParseIdx.
+Theorem utf8_pattern_vm_follows_reference :
+  forall (re : list nat), valid_text re ->
+  forall (e : expr) (st : pst), parse re = POk (e, st) ->
+  condok true e ->
+  forall (p : prog) (n : nat), regex_new (bs_of st) e = inr (RFancy p n) ->
+  forall cs : list (list nat), valid_chars cs ->
+  forall cx : ctx, c_text cx = concat cs -> (N.of_nat (length (concat cs)) < usize_max)%N ->
+  bnd cs (c_pos cx) ->
+  forall (max_st : nat) (lim : option N) (fuelv : nat),
+  match fst (vm_run cx p max_st lim fuelv) with
+  | RMatch sv => search_list cx e (S (length (c_text cx))) = Some (firstn (2 * S (ngroups e)) sv)
+  | RNoMatch => search_list cx e (S (length (c_text cx))) = None
+  | RPanic => False
+  | _ => True
+  end.
+Proof.
+  intros re Hv e st Hp Hc. apply (pattern_vm_follows_reference re e st Hp); auto.
+  eapply parse_wfe; eauto.
+Qed.
